@@ -14,7 +14,7 @@ from amaranth.lib.wiring import Out
 from amaranth_soc import csr
 from amaranth_soc.memory import MemoryMap
 
-from ..bmc import Harness, flat_ports, is1, bv, in_range, zext
+from ..bmc import Harness, Ports, flat_ports, is1, bv, in_range, zext, raw
 from ..e1 import Q, run_queries, replay as _replay
 
 PROPERTY = "C06"
@@ -80,7 +80,7 @@ def configs(tier, seed):
         except ValueError:
             continue
         out.append(cfg)
-    return out
+    return out + flat_configs(tier, seed)
 
 
 def maker(cfg):
@@ -134,9 +134,159 @@ def queries(h, cfg):
     return [Q("routing-exact", 1, routing, twin=twin), Q("read-data-of-addressed-sub", 1, rdata)]
 
 
+# ---------------------------------------------------------------------------------------------------
+# flat-vs-tree: registers behind a tree of decoders behave like the same registers on ONE multiplexer
+# at the addresses the root memory map reports (bounded miter from reset, conforming streams)
+# ---------------------------------------------------------------------------------------------------
+def flat_configs(tier, seed):
+    rnd = random.Random(seed + 6060)
+    out = []
+    want = 24 if tier == "quick" else 300
+    tries = 0
+    while len(out) < want and tries < want * 40:
+        tries += 1
+        dw = rnd.choice([8, 16])
+        aw = rnd.randint(5, 7)
+
+        def leaf():
+            regs = []
+            for i in range(rnd.randint(1, 2)):
+                r = {"w": rnd.choice([1, dw, dw + 3, 2 * dw, 3 * dw]), "acc": rnd.choice(["r", "w", "rw", "rw"])}
+                if rnd.random() < 0.3:
+                    r["addr"] = rnd.randrange(0, 8)
+                regs.append(r)
+            return {"k": "mux", "aw": rnd.randint(2, 3), "regs": regs}
+
+        def dec(depth, aw_):
+            wins = []
+            for i in range(rnd.randint(1, 3)):
+                node = dec(depth + 1, rnd.randint(3, aw_ - 1)) if depth < 1 and aw_ > 4 and rnd.random() < 0.35 else leaf()
+                wins.append({"node": node, "named": rnd.random() < 0.5})
+            return {"k": "dec", "aw": aw_, "align": rnd.choice([0, 0, 1]), "wins": wins}
+        cfg = {"flat": True, "dw": dw, "tree": dec(0, aw)}
+        try:
+            t, f = _flat_pair(cfg)
+            t.translate()
+            f.translate()
+        except ValueError:
+            continue
+        out.append(cfg)
+    return out
+
+
+def _flat_pair(cfg):
+    """(tree harness, flat harness) with stub registers created in the same order."""
+    from amaranth import Module
+    from . import mux as MX
+    dw = cfg["dw"]
+
+    def build(node, top, path, stubs):
+        if node["k"] == "mux":
+            mm, regs = MX.build_map({"aw": node["aw"], "dw": dw, "align": 0, "regs": node["regs"]})
+            mx = csr.Multiplexer(mm)
+            top.submodules["_".join(path)] = mx
+            stubs += regs
+            return mx.bus
+        dec = csr.Decoder(addr_width=node["aw"], data_width=dw, alignment=node.get("align", 0))
+        for i, w in enumerate(node["wins"]):
+            dec.add(build(w["node"], top, path + (f"w{i}",), stubs), name=((f"n{i}",) if w["named"] else None))
+        top.submodules["_".join(path)] = dec
+        return dec.bus
+    top = Module()
+    stubs = []
+    bus = build(cfg["tree"], top, ("root",), stubs)
+    ports = Ports()
+    for path, member, s in bus.signature.flatten(bus):
+        s = raw(s)
+        ports.append(s)
+        if path[-1] in ("addr", "r_stb", "w_stb", "w_data"):
+            ports.env.add(id(s))
+    tree = Harness(top, ports + flat_ports(*stubs), bus=bus, regs=stubs)
+    ranges = []
+    flat_mm = MemoryMap(addr_width=bus.addr_width, data_width=dw)
+    regs2 = []
+    for reg in stubs:
+        info = bus.memory_map.find_resource(reg)
+        r2 = MX.StubReg(reg.element.width, reg.element.access)
+        flat_mm.add_resource(r2, name=tuple(str(p) for n in info.path for p in n), addr=info.start, size=info.end - info.start)
+        regs2.append(r2)
+        ranges.append((reg.element.access.readable(), reg.element.access.writable(), info.start, info.end))
+    fmux = csr.Multiplexer(flat_mm)
+    flat = Harness(fmux, flat_ports(fmux, *regs2), bus=fmux.bus, regs=regs2)
+    tree.ranges = flat.ranges = ranges
+    return tree, flat
+
+
+def _obs(h, f):
+    obs = [f.sig(h.bus.r_data)]
+    for r in h.regs:
+        el = r.element
+        if el.access.readable():
+            obs.append(f.sig(el.r_stb))
+        if el.access.writable():
+            ws = f.sig(el.w_stb)
+            obs.append(ws)
+            if el.width:
+                obs.append(z3.If(ws == 1, f.sig(el.w_data), bv(el.width, 0)))
+    return obs
+
+
+def flat_check(cfg, out, stats):
+    from . import mux as MX
+    from ..bmc import unroll, solve, model_stimulus, mark_violation, Inconclusive
+    from ..e1 import cfg_key
+    tree, flat = _flat_pair(cfg)
+    ta, tb = tree.translate(), flat.translate()
+    if ta.inputs != tb.inputs:
+        raise Inconclusive("flat-vs-tree: the two netlists do not expose identical input ports")
+    maxc = max(e - s for _, _, s, e in tree.ranges)
+    D = 2 * maxc + 4
+    fa, ca = unroll(ta, D, init="reset", tag="m")
+    fb, cb = unroll(tb, D, init="reset", tag="m")
+    assume = ca + MX.conf_streams(tree.bus, tree.ranges, fa)
+    diffs = [x != y for t in range(D) for x, y in zip(_obs(tree, fa[t]), _obs(flat, fb[t]))]
+    r, m = solve(assume + [z3.Or(*diffs)], stats, "flat-vs-tree")
+    stats.twins += 1
+    ev = z3.Or(*[fa[t].sig(tree.bus.r_data) != 0 for t in range(D)] +
+               [is1(fa[t].sig(rg.element.w_stb)) for t in range(D) for rg in tree.regs if rg.element.access.writable()] +
+               [is1(fa[t].sig(rg.element.r_stb)) for t in range(D) for rg in tree.regs if rg.element.access.readable()])
+    rt, _ = solve(assume + [ev], None, "twin", want_model=False)
+    if rt != "sat":
+        raise Inconclusive("flat-vs-tree harness vacuous")
+    stats.twins_sat += 1
+    if len(stats.samples) < 4:
+        stats.samples.append({"cfg": cfg, "query": "flat-vs-tree miter", "frames": D, "verdict": r})
+    if r == "sat":
+        stim = model_stimulus(ta, fa, m)
+        v = {"key": f"flat-vs-tree@{cfg_key(cfg)}",
+             "what": f"C06 registers behind the decoder tree behave differently from the same registers on one "
+                     f"multiplexer at the addresses the memory map reports ({D} cycles from reset, {cfg_key(cfg)})",
+             "query": "flat-vs-tree", "cfg": cfg, "stimulus": stim, "prefix": 0, "k": D, "detail": {}}
+        stats.replays += 1
+        if not _flat_replay(v):
+            raise Inconclusive("flat-vs-tree counterexample does not reproduce on the simulator")
+        mark_violation(v["key"])
+        out.violations.append(v)
+
+
+def _flat_replay(v):
+    from ..bmc import simulate, SimFrame, _TraceFrame
+    traces = []
+    for h in _flat_pair(v["cfg"]):
+        rec = {}
+        _obs(h, _TraceFrame(rec))
+        tr = simulate(h, v["stimulus"], list(rec.values()))
+        traces.append([[z3.simplify(x).as_long() for x in _obs(h, SimFrame(row))] for row in tr])
+    return traces[0] != traces[1]
+
+
 def check(cfg, out, stats):
+    if cfg.get("flat"):
+        return flat_check(cfg, out, stats)
     run_queries(__import__(__name__, fromlist=["x"]), cfg, out, stats, cosim_cycles=8)
 
 
 def replay(v):
+    if v["query"] == "flat-vs-tree":
+        return _flat_replay(v)
     return _replay(__import__(__name__, fromlist=["x"]), v)
